@@ -272,7 +272,7 @@ func (mv *MessageView) BodyReader(opts ...Option) (io.ReadCloser, error) {
 	if mv.chunked {
 		r = httputil.NewChunkedReader(r)
 	}
-	if mv.compress == "gzip" || mv.compress == "deflate" {
+	if mv.compress == "gzip" || mv.compress == "x-gzip" || mv.compress == "deflate" {
 		// An empty body (answer to HEAD, 304) decodes to an empty body.
 		br := bufio.NewReader(r)
 		if _, err := br.Peek(1); err == io.EOF {
@@ -281,7 +281,7 @@ func (mv *MessageView) BodyReader(opts ...Option) (io.ReadCloser, error) {
 		r = br
 	}
 	switch mv.compress {
-	case "gzip":
+	case "gzip", "x-gzip":
 		gr, err := gzip.NewReader(r)
 		if err != nil {
 			return nil, err
